@@ -72,7 +72,7 @@ impl tower_service::Service<http::Request<tonic::body::Body>> for InnerSvc {
                     }
                 }
             }
-            let mut resp = http::Response::new(SimBody::new(&this.sim, "inner-resp", this.resp_body.clone(), this.resp_pending, this.sim.chance(1, 3)));
+            let mut resp = http::Response::new(SimBody::new(&this.sim, "inner-resp", this.resp_body.clone(), this.resp_pending, this.sim.chance(1, 3)).with_size_hint(if this.sim.chance(1, 3) { crate::seams::SizeHint::ExactTrue } else { crate::seams::SizeHint::Unknown }));
             *resp.status_mut() = StatusCode::from_u16(this.resp_status).unwrap();
             *resp.version_mut() = Version::HTTP_2;
             *resp.headers_mut() = header_map(&this.resp_headers);
@@ -186,6 +186,24 @@ pub fn run(sim: &Sim, _idx: u64) {
     }
     req.headers_mut().insert("x-user", "u1".parse().unwrap());
     req.headers_mut().append("x-user", "u2".parse().unwrap());
+    // hop-by-hop and probing headers an HTTP/1 client or a load balancer may add: they change
+    // nothing about what kind of request this is
+    if sim.chance(1, 4) {
+        match sim.draw(3) {
+            0 => {
+                req.headers_mut().insert("upgrade", sim.pick(&["h2c", "websocket"]).parse().unwrap());
+                req.headers_mut().insert("connection", "Upgrade".parse().unwrap());
+            }
+            1 => {
+                req.headers_mut().insert("connection", "keep-alive".parse().unwrap());
+            }
+            _ => {
+                req.headers_mut().insert("x-forwarded-proto", "https".parse().unwrap());
+                req.headers_mut().insert("content-length", outer_bytes.len().to_string().parse().unwrap());
+            }
+        }
+        sim.probe("extra-hop-headers-on-request");
+    }
     let sent_headers = req.headers().clone();
     sim.nontrivial();
     sim.sample(|| format!("kind={kind} {method} {version:?} content-type={ct:?} accept={accept:?} req_grpc={}B resp frames={nresp} ({}B) trailers={:?} trailers_only={trailers_only}", req_grpc.len(), resp_grpc.len(), trailers.iter().map(|(k, v)| format!("{k}:{}", String::from_utf8_lossy(v))).collect::<Vec<_>>()));
